@@ -55,9 +55,53 @@ func runC13(c *Ctx) {
 		open, _ = ci.(*ssa.Call)
 	}
 	pathOK := false
+	oidIdx, sizeIdx := -1, -1
+	for i, prm := range fp.Params {
+		if prm == oidPrm {
+			oidIdx = i
+		}
+		if prm == sizePrm {
+			sizeIdx = i
+		}
+	}
 	if open != nil {
-		if pc, _, ok := CallResult(open.Call.Args[0]); ok && nameIn(CalleeName(pc.Common()), []string{"(*fs.Filesystem).ObjectPathname", "(*fs.Filesystem).ObjectPath"}) {
-			pathOK = oidPrm != nil && SameVar(pc.Call.Args[1], oidPrm)
+		isPathFn := func(v ssa.Value) (*ssa.Call, bool) {
+			pc, _, ok := CallResult(v)
+			if ok && nameIn(CalleeName(pc.Common()), []string{"(*fs.Filesystem).ObjectPathname", "(*fs.Filesystem).ObjectPath"}) {
+				return pc, true
+			}
+			return nil, false
+		}
+		// the path may be computed here or handed in by the caller together with the oid
+		for _, l := range p.LeavesUp(open.Call.Args[0], func(v ssa.Value) FlowAct {
+			if _, ok := isPathFn(v); ok {
+				return Stop
+			}
+			return Descend
+		}) {
+			pc, ok := isPathFn(l)
+			if !ok {
+				pathOK = false
+				break
+			}
+			if pc.Parent() == fp {
+				pathOK = oidPrm != nil && SameVar(pc.Call.Args[1], oidPrm)
+				continue
+			}
+			// computed by a caller: the oid it is computed for is the oid that caller passes
+			pathOK = false
+			for _, b := range pc.Parent().Blocks {
+				for _, in := range b.Instrs {
+					if cc := AsCall(in); cc != nil && cc.StaticCallee() == fp && oidIdx >= 0 && oidIdx < len(cc.Args) {
+						if SameValue(cc.Args[oidIdx], pc.Call.Args[1]) || SamePath(cc.Args[oidIdx], pc.Call.Args[1]) {
+							pathOK = true
+						}
+					}
+				}
+			}
+			if !pathOK {
+				break
+			}
 		}
 	}
 	c.Check(pathOK, "R1", "fsckPointer:opens-object-of-oid", p.Pos(fp.Pos()), "the file examined is the stored object of the oid being checked", "fsckPointer does not open the object path of the oid it was asked to check")
@@ -133,8 +177,12 @@ func runC13(c *Ctx) {
 		}
 		call := calls[0].(*ssa.Call)
 		// arguments are fields of the same pointer
-		_, f1, b1, ok1 := FieldOf(call.Call.Args[1])
-		_, f2, b2, ok2 := FieldOf(call.Call.Args[2])
+		ai, si := 1, 2
+		if oidIdx >= 0 && sizeIdx >= 0 && oidIdx < len(call.Call.Args) && sizeIdx < len(call.Call.Args) {
+			ai, si = oidIdx, sizeIdx
+		}
+		_, f1, b1, ok1 := FieldOf(call.Call.Args[ai])
+		_, f2, b2, ok2 := FieldOf(call.Call.Args[si])
 		c.Check(ok1 && ok2 && f1 == "Oid" && f2 == "Size" && SamePath(b1, b2), "R1", "doFsckObjects:checks-the-delivered-pointer", p.InstrPos(call), "the delivered pointer's own oid and size are checked", "fsckPointer is not called with the oid and size of the pointer the scanner delivered")
 		for _, dc := range decidingConds(af, call.Block()) {
 			_, _, isErrTest := IsErrNilCheck(dc.Cond)
